@@ -1056,7 +1056,7 @@ def run(chk):
     chk.sample({'threaded_schedule': thr[0]['sched'], 'scripts': thr[0]['scripts']}, limit=6)
     chk.notes['threaded_runs_with_lock_contention'] = {
         k: sum(1 for r in thr if r['blocked'][k]) for k in ('accessLock', 'updateLock')}
-    if not all(chk.notes['threaded_runs_with_lock_contention'].values()):
+    if not chk.violations and not all(chk.notes['threaded_runs_with_lock_contention'].values()):
         raise MachineryError('controlled thread executions never contended for a lock: schedules are vacuous')
     chk.exhaustive = False
     chk.assumptions.append('thread interleavings are controlled at driver calls, send_reply and lock hand-over only '
